@@ -203,7 +203,73 @@ func c14Exec(p c14Prog, which int, failAt int, w *recWriter) (c14Result, error) 
 
 var c14Entry = []string{"Execute", "ExecuteBytes", "ExecuteWriter", "ExecuteWriterUnbuffered"}
 
+// c14BigOutput: the same promises for renderings of 70 KiB .. 9 MiB (beyond any chunk or buffer size): the variants
+// agree, a failing caller's writer gets its error back whichever Write call fails and however much it took, and an
+// execution failing at the very end has delivered nothing through ExecuteWriter.
+func c14BigOutput(c *C) {
+	r := c.R
+	size := []int{70000, 1<<20 + 5, 2<<20 + 1, 4<<20 + 9, 9 << 20}[r.Intn(5)]
+	unit := "0123456789abcdef"
+	src := r.Pick([]string{"{{ big }}tail{{ mf() }}", "{% for i in three %}{{ big }}{% endfor %}{{ mf() }}", "{% filter lower %}{{ big }}{% endfilter %}{% include \"/inc.tpl\" %}{{ mf() }}"})
+	mult := 1
+	if strings.Contains(src, "three") {
+		mult = 3
+	}
+	big := strings.Repeat(unit, size/mult/len(unit)+1)
+	set, _ := newSet(map[string]string{"/inc.tpl": "{{ big }}"})
+	tpl, err := set.FromString(src)
+	if err != nil {
+		c.Fail("compile-error", D{"source": src, "error": err.Error()})
+		return
+	}
+	ok := func() (string, error) { return "", nil }
+	ctx := pongo2.Context{"big": big, "three": []int{1, 2, 3}, "mf": ok}
+	want, werr := tpl.Execute(ctx)
+	if werr != nil || len(want) < size/2 {
+		c.Fail("unexpected-error", D{"source": src, "error": errStr(werr), "output_len": len(want)})
+		return
+	}
+	b, berr := tpl.ExecuteBytes(ctx)
+	var w1, w2 recWriter
+	e1 := tpl.ExecuteWriter(ctx, &w1)
+	e2 := tpl.ExecuteWriterUnbuffered(ctx, &w2)
+	c.Eval(4)
+	if berr != nil || e1 != nil || e2 != nil || string(b) != want || w1.buf.String() != want || w2.buf.String() != want {
+		c.Fail("variants-disagree", D{"source": src, "output_len": len(want), "ExecuteBytes_len": len(b), "ExecuteWriter_len": w1.buf.Len(), "ExecuteWriterUnbuffered_len": w2.buf.Len(), "errors": errStr(berr) + errStr(e1) + errStr(e2)})
+		return
+	}
+	// failing writers: at the first call, taking nothing / a part / everything of that call
+	werrv := errors.New("c14: the caller's writer is broken")
+	for _, fw := range []*recWriter{{failAt: 1, err: werrv}, {failAt: 1, err: werrv, short: 1 + r.Intn(1<<20)}, {failAt: 1, err: werrv, full: true}, {failAt: 2, err: werrv}, {failAt: 1 + r.Intn(3), err: werrv, short: 100}} {
+		xerr := tpl.ExecuteWriter(ctx, fw)
+		c.Eval(1)
+		if fw.failAt <= len(fw.writes) && !errors.Is(xerr, werrv) && (xerr == nil || !strings.Contains(xerr.Error(), werrv.Error())) {
+			c.Fail("writer-error-not-returned", D{"source": src, "output_len": len(want), "writer": fmt.Sprintf("fails at Write call %d (accepting %d bytes, full=%v)", fw.failAt, fw.short, fw.full), "write_calls_seen": fw.writes, "returned": errStr(xerr)})
+			return
+		}
+		if fw.buf.Len() > 0 && !strings.HasPrefix(want, fw.buf.String()) {
+			c.Fail("writer-received-foreign-bytes", D{"source": src, "received_len": fw.buf.Len()})
+			return
+		}
+	}
+	// the execution fails at its very end: ExecuteWriter has written nothing
+	ctx["mf"] = func() (string, error) { return "", errors.New("c14: failure at the end") }
+	var w3 recWriter
+	e3 := tpl.ExecuteWriter(ctx, &w3)
+	c.Eval(1)
+	if e3 == nil || len(w3.writes) != 0 {
+		c.Fail("ExecuteWriter-wrote-before-failing", D{"source": src, "output_len_before_the_failure": len(want), "write_calls": w3.writes, "error": errStr(e3)})
+		return
+	}
+	c.Cover(fmt.Sprintf("big_output_%d", size))
+	c.Nontrivial(fmt.Sprintf("big:%d:%s", size, src))
+}
+
 func c14Run(c *C) {
+	if c.Idx%100 == 41 {
+		c14BigOutput(c)
+		return
+	}
 	p := c14Gen(c.R)
 	if c.R.Bool() {
 		// one compiled template lives through all the failing and successful executions of this case
